@@ -5,6 +5,7 @@ import (
 	"go/constant"
 	"go/token"
 	"go/types"
+	"sort"
 	"strings"
 
 	"golang.org/x/tools/go/ssa"
@@ -451,6 +452,8 @@ func R8(pkgs ...string) func(p *core.Prog) *core.Result {
 			}
 		}
 		r.Floor("entry_points", entries, 5*len(pkgs))
+		doneMeansValue(p, r, pkgs)
+		topLevelDone(p, r, pkgs)
 		return r
 	}
 }
@@ -551,4 +554,325 @@ func (k *finPopClient) Branch(s finPopState, cond ssa.Value, outcome bool) (finP
 		}
 	}
 	return s, true
+}
+
+// ---- DONE-MEANS-VALUE ----
+//
+// A step function's completion flag tells the dispatcher (and through it
+// Decoder.Next) that one value has been delivered completely. On every path on
+// which a step returns the flag as definitely true with a nil-able error, it
+// has emitted at least one visitor event on that path. (A flag handed on from
+// a callee is the callee's responsibility.) A step that says "done" for
+// something that produced no event - whitespace, a no-op marker - makes Next
+// succeed with an empty value.
+
+type dmState struct {
+	emitted bool
+	bt, bf  valueSet
+	nonnil  valueSet
+}
+type dmClient struct {
+	p       *core.Prog
+	fn      *ssa.Function
+	doneIdx int
+	num     *valueNumbering
+	bad     string
+}
+
+func (k *dmClient) Key(s dmState) string {
+	return fmt.Sprintf("%v|%s|%s|%s", s.emitted, s.bt.key(), s.bf.key(), s.nonnil.key())
+}
+func (k *dmClient) Phis(s dmState, blk *ssa.BasicBlock, pred int) dmState {
+	type upd struct {
+		id             int
+		bt, bf, nonnil bool
+	}
+	var ups []upd
+	for _, in := range blk.Instrs {
+		phi, ok := in.(*ssa.Phi)
+		if !ok {
+			break
+		}
+		if pred < 0 || pred >= len(phi.Edges) {
+			continue
+		}
+		e := phi.Edges[pred]
+		eid := k.num.id(e)
+		u := upd{id: k.num.id(phi), nonnil: s.nonnil.has(eid) || definitelyNonNilError(e)}
+		if cv, ok := constBool(e); ok {
+			u.bt, u.bf = cv, !cv
+		} else {
+			u.bt, u.bf = s.bt.has(eid), s.bf.has(eid)
+		}
+		ups = append(ups, u)
+	}
+	for _, u := range ups {
+		s.bt, s.bf, s.nonnil = s.bt.without(u.id), s.bf.without(u.id), s.nonnil.without(u.id)
+		if u.bt {
+			s.bt = s.bt.with(u.id)
+		}
+		if u.bf {
+			s.bf = s.bf.with(u.id)
+		}
+		if u.nonnil {
+			s.nonnil = s.nonnil.with(u.id)
+		}
+	}
+	return s
+}
+func (k *dmClient) Instr(s dmState, in ssa.Instruction) (dmState, bool, []dmState) {
+	if c, ok := in.(*ssa.Call); ok {
+		cc := c.Common()
+		if cc.IsInvoke() && cc.Method.Pkg() != nil && cc.Method.Pkg().Path() == core.ModPath && strings.HasPrefix(cc.Method.Name(), "On") {
+			s.emitted = true
+		}
+		// a module callee that itself emits (string/number reporters) counts as well
+		if sc := cc.StaticCallee(); sc != nil && core.FuncPkg(sc) == core.FuncPkg(k.fn) && emitsEvent(sc, map[*ssa.Function]bool{}) {
+			s.emitted = true
+		}
+	}
+	return s, true, nil
+}
+func emitsEvent(f *ssa.Function, seen map[*ssa.Function]bool) bool {
+	if seen[f] || f.Blocks == nil {
+		return false
+	}
+	seen[f] = true
+	for _, b := range f.Blocks {
+		for _, in := range b.Instrs {
+			c, ok := in.(*ssa.Call)
+			if !ok {
+				continue
+			}
+			cc := c.Common()
+			if cc.IsInvoke() && cc.Method.Pkg() != nil && cc.Method.Pkg().Path() == core.ModPath && strings.HasPrefix(cc.Method.Name(), "On") {
+				return true
+			}
+			if sc := cc.StaticCallee(); sc != nil && core.FuncPkg(sc) == core.FuncPkg(f) && emitsEvent(sc, seen) {
+				return true
+			}
+		}
+	}
+	return false
+}
+func (k *dmClient) Branch(s dmState, cond ssa.Value, outcome bool) (dmState, bool) {
+	for {
+		u, ok := cond.(*ssa.UnOp)
+		if !ok || u.Op != token.NOT {
+			break
+		}
+		cond, outcome = u.X, !outcome
+	}
+	id := k.num.id(cond)
+	if s.bt.has(id) && !outcome || s.bf.has(id) && outcome {
+		return s, false
+	}
+	if x, trueMeansNil, ok := nilTest(cond); ok && isErrorType(x.Type()) {
+		isNil := outcome == trueMeansNil
+		if isNil && s.nonnil.has(k.num.id(x)) {
+			return s, false
+		}
+		if !isNil {
+			s.nonnil = s.nonnil.with(k.num.id(x))
+		}
+	}
+	if b, isB := cond.Type().Underlying().(*types.Basic); isB && b.Kind() == types.Bool {
+		if outcome {
+			s.bt = s.bt.with(id)
+		} else {
+			s.bf = s.bf.with(id)
+		}
+	}
+	return s, true
+}
+func (k *dmClient) Return(s dmState, ret *ssa.Return) {
+	if ei := errResultIndex(k.fn.Signature); ei >= 0 {
+		rv := ret.Results[ei]
+		if definitelyNonNilError(rv) || s.nonnil.has(k.num.id(rv)) {
+			return
+		}
+	}
+	dv := ret.Results[k.doneIdx]
+	isTrue := false
+	if cv, ok := constBool(dv); ok {
+		isTrue = cv
+	} else if s.bt.has(k.num.id(dv)) {
+		isTrue = true
+	}
+	if isTrue && !s.emitted {
+		k.bad = "returns its completion flag as true at " + k.p.Pos(token.Pos(instrPos(ret))) + " on a path that emitted no visitor event"
+	}
+}
+
+func doneMeansValue(p *core.Prog, r *core.Result, pkgs []string) {
+	n := 0
+	for _, pk := range pkgs {
+		fam, err := buildFamily(p, pk)
+		if err != nil {
+			continue
+		}
+		var fns []*ssa.Function
+		for f := range fam.steps {
+			fns = append(fns, f)
+		}
+		sort.Slice(fns, func(i, j int) bool { return fns[i].Pos() < fns[j].Pos() })
+		// only the steps whose flag reaches a dispatcher: called from feedUntil / execStep with the flag extracted
+		dispatchers := map[*ssa.Function]bool{fam.feedUntil: true}
+		if ex := p.LookupFunc(pk, "(*Parser).execStep"); ex != nil {
+			dispatchers[ex] = true
+		}
+		flagUsed := map[*ssa.Function]bool{}
+		for d := range dispatchers {
+			for _, b := range d.Blocks {
+				for _, in := range b.Instrs {
+					c, ok := in.(*ssa.Call)
+					if !ok || c.Common().StaticCallee() == nil {
+						continue
+					}
+					if refs := c.Referrers(); refs != nil {
+						for _, rf := range *refs {
+							if ex, ok := rf.(*ssa.Extract); ok {
+								if bt, ok := ex.Type().Underlying().(*types.Basic); ok && bt.Kind() == types.Bool {
+									flagUsed[c.Common().StaticCallee()] = true
+								}
+							}
+						}
+					}
+				}
+			}
+		}
+		for _, f := range fns {
+			if !flagUsed[f] {
+				continue
+			}
+			// the completion flag: the only bool result
+			doneIdx, bools := -1, 0
+			res := f.Signature.Results()
+			for i := 0; i < res.Len(); i++ {
+				if b, ok := res.At(i).Type().Underlying().(*types.Basic); ok && b.Kind() == types.Bool {
+					doneIdx = i
+					bools++
+				}
+			}
+			if bools != 1 || f == fam.feedUntil {
+				continue
+			}
+			if _, isSummarised := summarisedSteps[core.FuncKey(f)]; isSummarised {
+				continue // its flag means "end of the container reached", the caller emits
+			}
+			n++
+			k := &dmClient{p: p, fn: f, doneIdx: doneIdx, num: newNumbering()}
+			_, capped := WalkPaths[dmState](k, f.Blocks[0], 0, dmState{}, 300000, nil)
+			fkey := core.FuncKey(f)
+			switch {
+			case capped:
+				r.Undecided(".DONE-MEANS-VALUE", fkey, "state cap hit")
+			case k.bad != "":
+				r.Fail(".DONE-MEANS-VALUE", fkey+"|done", p.Pos(f.Pos()), fkey+" "+k.bad+": the dispatcher and Decoder.Next take this for a completely delivered value (Next succeeds with no events; a trailing such byte hides the clean end of the stream)", "")
+			default:
+				r.Ok(".DONE-MEANS-VALUE", p.Pos(f.Pos()), fkey+": reports completion only on paths that emitted an event (or hands on a callee's flag)")
+			}
+		}
+	}
+	r.Floor("steps_with_completion_flag", n, 20)
+}
+
+// ---- TOP-LEVEL-DONE ----
+//
+// The arm of the dispatcher for the idle / top-level state calls the value
+// step; its completion flag is what ends feedUntil after exactly one top-level
+// value. The flag of that call must be used (extracted and referenced), not
+// discarded - inside containers discarding it is right (the container goes
+// on), at top level it makes Next run on into the following documents.
+
+// frozen: the idle state each parser is initialised with (its finalize tests for it).
+var idleStateConst = map[string]string{"json": "startState", "cborl": "stValue", "ubjson": "stNext"}
+
+type tdState struct{ disp int64 }
+type tdClient struct {
+	fn    *ssa.Function
+	idle  int64
+	steps map[*ssa.Function]*stepFn
+	calls int
+	bad   string
+	p     *core.Prog
+}
+
+func (k *tdClient) Key(s tdState) string                              { return fmt.Sprint(s.disp) }
+func (k *tdClient) Phis(s tdState, _ *ssa.BasicBlock, _ int) tdState { return s }
+func (k *tdClient) Return(tdState, *ssa.Return)                      {}
+func (k *tdClient) Branch(s tdState, cond ssa.Value, outcome bool) (tdState, bool) {
+	if bo, ok := cond.(*ssa.BinOp); ok && bo.Op == token.EQL && outcome {
+		if _, isLoad := bo.X.(*ssa.UnOp); isLoad {
+			if c, ok := constIntVal(bo.Y); ok {
+				s.disp = c + 1
+			}
+		}
+	}
+	return s, true
+}
+func (k *tdClient) Instr(s tdState, in ssa.Instruction) (tdState, bool, []tdState) {
+	c, ok := in.(*ssa.Call)
+	if !ok || s.disp-1 != k.idle || s.disp == 0 {
+		return s, true, nil
+	}
+	sc := c.Common().StaticCallee()
+	if sc == nil || k.steps[sc] == nil {
+		return s, true, nil
+	}
+	k.calls++
+	used := false
+	if refs := c.Referrers(); refs != nil {
+		for _, rf := range *refs {
+			if ex, ok := rf.(*ssa.Extract); ok {
+				if bt, ok := ex.Type().Underlying().(*types.Basic); ok && bt.Kind() == types.Bool {
+					if er := ex.Referrers(); er != nil {
+						for _, u := range *er {
+							if _, isDbg := u.(*ssa.DebugRef); !isDbg {
+								used = true
+							}
+						}
+					}
+				}
+			}
+		}
+	}
+	if !used {
+		k.bad = "calls " + core.FuncKey(sc) + " at " + k.p.Pos(c.Pos()) + " and discards its completion flag"
+	}
+	s.disp = 0
+	return s, true, nil
+}
+
+func topLevelDone(p *core.Prog, r *core.Result, pkgs []string) {
+	for _, pk := range pkgs {
+		fam, err := buildFamily(p, pk)
+		if err != nil {
+			continue
+		}
+		sp := p.SPkgs[pk]
+		nc, _ := sp.Members[idleStateConst[pk]].(*ssa.NamedConst)
+		if nc == nil {
+			r.Undecided(".TOP-LEVEL-DONE", pk+"."+idleStateConst[pk], "idle state constant not found")
+			continue
+		}
+		idle, _ := constIntVal(nc.Value)
+		d := fam.feedUntil
+		if ex := p.LookupFunc(pk, "(*Parser).execStep"); ex != nil {
+			d = ex
+		}
+		k := &tdClient{fn: d, idle: idle, steps: fam.steps, p: p}
+		_, capped := WalkPaths[tdState](k, d.Blocks[0], 0, tdState{}, 200000, nil)
+		key := core.FuncKey(d)
+		switch {
+		case capped:
+			r.Undecided(".TOP-LEVEL-DONE", key, "state cap hit")
+		case k.calls == 0:
+			r.Undecided(".TOP-LEVEL-DONE", key+"|idle", "no step call found in the arm of the idle state "+idleStateConst[pk])
+		case k.bad != "":
+			r.Fail(".TOP-LEVEL-DONE", key+"|flag", p.Pos(d.Pos()), key+": the arm of the idle state "+idleStateConst[pk]+" "+k.bad+": a top-level value that completes inside the chunk is not reported, and Next delivers the following document(s) in the same call", "")
+		default:
+			r.Ok(".TOP-LEVEL-DONE", p.Pos(d.Pos()), key+": the arm of the idle state uses the completion flag of the value step")
+		}
+	}
 }
